@@ -10,7 +10,7 @@ checks = {
  "C02": ("simmon", "exploration", "3 C02", "runtime monitoring: N-balance oracle with clamp accounting on every N sub-step and day of generated runs",
    "Holds on every N sub-step and day of the generated runs (residual minus clamp-created N <= tolerance), incl. deposition/irrigation input and the instability flag; the real transport routine is additionally run on copies of the live state with tillage-like mixed top-soil N and demand above the layers' content (uptake limit engaged); 12 % of the cases with automatic management, half of the automatic-harvest cases rewritten after a probe run so that a tillage postponed by the standing crop meets the next scheduled one; permanent crops after annual crops, the crop before them mostly a legume taken off green; first crops with the N-content functions 7-9 (project-supplied parameter file); sampled inputs."),
  "C06": ("simmon", "exploration", "3 C06", "runtime monitoring: bound and finiteness assertions on the live state every day + NaN scan of result files",
-   "Every layer every day within [WP/3, FC + capillary increment], below 1 and not above the pore volume the layer had after input; every float of the run state finite; the real water routine is additionally run for whole days on copies of the live state with sub-step counts hostile to floating point (49, 93, 98 ...) and layers filled to pore volume; injected air-dry and nearly full states; sampled inputs."),
+   "Every layer every day within [WP/3, FC + capillary increment], below 1 and not above the pore volume the layer had after input; every float of the run state finite; the real water routine is additionally run for whole days on copies of the live state with sub-step counts hostile to floating point (49, 93, 98 ...) and layers filled to pore volume; injected air-dry and nearly full states; upper bound also against the field capacity of a reference run with forced daily re-evaluation of the parameters; sampled inputs."),
  "C07": ("simmon", "exploration", "3 C07", "runtime monitoring: pool/counter bookkeeping around every N-routine call, once-per-day crediting per sub-step, kernel calls of the real mineralisation routine",
    "Non-negativity, pool+counter conservation around mineralisation/tillage, fertiliser organic inputs equal the applied amounts, uptake/fixation credited only on sub-step 1 and never beyond the day's gain of the fixation counter (also for a grass ley that follows a legume taken off green); sampled inputs."),
  "C08": ("simmon", "exploration", "3 C08", "runtime monitoring: ET ordering / cap / root-zone assertions at the ET probe every day",
@@ -18,7 +18,7 @@ checks = {
  "C09": ("simmon", "exploration", "3 C09", "runtime monitoring: crop state assertions every crop day, stage-order checker at every harvest, cross-check with the crop result file",
    "All shipped annual main-crop parameter sets (classic + YAML) exercised; state valid and stage index monotone on every crop day observed; 30 % of the cases driven by sunshine duration instead of radiation, with sunshine gaps of several days."),
  "C15": ("simmon", "exploration", "3 C15", "runtime monitoring: parameter-ordering assertions after input and twice a day, history monitor keyed by groundwater level",
-   "Ordering 0<WP<FC<=PS<1 and WP<WRED<FC hold for every layer/day of the generated runs over table / explicit / PTF routes; same level => same parameters (one open finding for the input set-up)."),
+   "Ordering 0<WP<FC<=PS<1 and WP<WRED<FC hold for every layer/day of the generated runs over table / explicit / PTF routes; same level => same parameters (one open finding for the input set-up); every day additionally compared with a reference run of the same scenario in which the daily groundwater update is forced to re-evaluate the parameters from scratch (no level has to recur); mixed-source and two-group profiles."),
  "C19": ("simmon", "exploration", "3 C19", "runtime monitoring: envelope assertion on every layer temperature every day + diffusion-number invariant",
    "Temperatures stay inside the running envelope of imposed boundary values; diffusion number <= 1/2 on every layer-day observed."),
  "C12": ("fnmon", "exploration", "3 C12", "runtime monitoring: exhaustive execution of the real date conversion functions against a calendar oracle (Go time package)",
